@@ -84,6 +84,8 @@ impl Mix {
                 m.mem += 6;
                 m.stack += 3;
                 m.call += 3;
+                m.code += 2;
+                m.wide += 1;
                 m.wild = m.wild.max(3);
             }
             "C25" => m.jump += 8,
